@@ -780,14 +780,20 @@ impl<'a, C: Crypto> CaseResponder<'a, C> {
         // `SharedSecret` and peer identity are unchanged; only the
         // `resumption_id` is rotated. `insert_or_update` refreshes the
         // existing record for this peer and moves it to the tail (MRU).
+        //
+        // Not if the reserved session is gone: the fabric was removed while we
+        // were waiting for SigmaFinished (which drops the sessions and the
+        // resumption records of the fabric), and the record must not come back.
         exchange.with_state(|state| {
-            state.resumption.insert_or_update(ResumableSession {
-                fab_idx: record.fab_idx,
-                peer_nodeid: record.peer_nodeid,
-                peer_cat_ids: record.peer_cat_ids,
-                resumption_id: new_rid,
-                shared_secret: record.shared_secret.clone(),
-            });
+            if session.is_in_table(state) {
+                state.resumption.insert_or_update(ResumableSession {
+                    fab_idx: record.fab_idx,
+                    peer_nodeid: record.peer_nodeid,
+                    peer_cat_ids: record.peer_cat_ids,
+                    resumption_id: new_rid,
+                    shared_secret: record.shared_secret.clone(),
+                });
+            }
             Ok::<_, Error>(())
         })?;
         exchange.matter().transport().notify_resumption_dirty();
